@@ -189,6 +189,9 @@ def analyse(prog):
         info.slot_default_reads[cn] = sr
         info.slot_default_nested[cn] = nested
     info.page_reads = all_reads(prog["page"])
+    info.every_read = set(info.page_reads[0])
+    for cn in info.tpl_all_reads:
+        info.every_read |= info.tpl_all_reads[cn][0]
     return info
 
 
@@ -222,8 +225,8 @@ CLASS_TEXT = {
             "(the fill is rendered in the isolated inner context instead of the scope of the tag)",
     K_LEAK: "a component rendered isolated (isolated mode or `only`) stands inside a {% for %} loop, and a component template "
             "reads that loop's variable (not being one of its own variables) or reads forloop outside a loop of its own",
-    K_RECAP: "the program has a {% for %} loop and a fill, and a for- or with-variable shares its name with another with / for / fill-alias / "
-             "component-data variable (FillNode._extract_fill re-captures every context layer containing `forloop` - enclosing loops and the "
+    K_RECAP: "the program has a {% for %} loop and a fill, and a for- or with-variable that is read somewhere shares its name with another with / "
+             "for / fill-alias / component-data variable (FillNode._extract_fill re-captures every context layer containing `forloop` - enclosing loops and the "
              "variable layers of enclosing fills that stand in a loop - above the binders that lie between)",
     K_ISO_BTW: "isolated mode / `only`: a fill whose component tag is written in a component template has a with/for variable "
                "between tag and fill that shares its name with another binder (or reads forloop of a loop between tag and fill "
@@ -284,7 +287,10 @@ def classes(prog, info=None):
     # merged variable layer of an enclosing fill that stands in a loop (it holds that fill's with-variables too) - on top of
     # the variables captured for the fill
     if have_fill and any(s[1] == "for" for s in info.sites):
-        lifted = {s[2] for s in info.sites if s[1] in ("for", "with")}
+        # loop variables are lifted always; with-variables only as part of the variable layer of an enclosing fill, i.e. when
+        # a fill is written inside another fill (or, django mode, in a component template that may be rendered inside one)
+        nested_fill = any(f.tag_depth > 0 for f in info.fills) or (mode == "django" and any(f.owner is not None for f in info.fills))
+        lifted = {s[2] for s in info.sites if s[1] == "for" or (s[1] == "with" and nested_fill)} & info.every_read
         if any(n_sites(info, x, ("with", "for", "sd", "df", "data")) > 1 for x in lifted):
             out.append(K_RECAP)
     # K_ISO_BTW / K_DJ_BTW
@@ -435,7 +441,9 @@ def ni_variant(prog, tag):
     """A program for the two-run non-interference oracle.
     * every component gets one more data variable zs_<c> = "S<tag>" which its own template never reads,
     * every fill (explicit or implicit) of a tag of component c additionally prints {{ zs_<c> }} (isolated rendering of c:
-      inner data must be invisible to the caller's fill content),
+      inner data must be invisible to the caller's fill content) and {{ forloop.counter }} (per-iteration state of the
+      loops around the tag / the fill),
+    * the page lists are passed down (zl, zn) so that loops in component templates iterate, at least twice,
     * every component template additionally prints the unpassed page variable {{ zu_page }} and {{ forloop.counter }}
       (outside any loop of its own),
     * the page context gets zu_page = "U<tag>".
@@ -447,7 +455,7 @@ def ni_variant(prog, tag):
         for t in ts:
             k = t[0]
             if k == "fill":
-                t = t[:4] + ([("out", ("var", secret_name(cname)))] + list(t[4]),)
+                t = t[:4] + ([("out", ("var", secret_name(cname))), ("out", ("counter",))] + list(t[4]),)
             elif k == "if":
                 t = ("if", t[1], add_fill_probes(t[2], cname), add_fill_probes(t[3], cname))
             elif k in ("for", "with", "provide"):
@@ -461,7 +469,7 @@ def ni_variant(prog, tag):
             if has_fill:
                 return [t[:4] + (add_fill_probes(list(t[4]), t[1]),)]
             if not all(x[0] == "text" and not x[1].strip() for x in t[4]):
-                return [t[:4] + ([("out", ("var", secret_name(t[1])))] + list(t[4]),)]
+                return [t[:4] + ([("out", ("var", secret_name(t[1]))), ("out", ("counter",))] + list(t[4]),)]
         return [t]
 
     # the page's list variables reach component templates only when passed: every tag passes them on (zl / zn), every
@@ -486,7 +494,8 @@ def ni_variant(prog, tag):
         tpl = map_tpls(map_tpls(cd["tpl"], g), pass_lists(False)) + [("text", "^"), ("out", ("var", "zu_page")), ("out", ("counter",))]
         q["lib"].append((n, {"tpl": tpl, "data": list(cd["data"]) + [("zl", ("kw", "zl")), ("zn", ("kw", "zn")),
                                                                    (secret_name(n), ("str", "S" + tag))]}))
-    q["ctx"] = list(prog["ctx"]) + [("zu_page", "U" + tag)]
+    # loops must iterate at least twice for per-iteration state (forloop) to matter
+    q["ctx"] = [(k, (["I1", "I2"] if k == "plist" and len(v) < 2 else v)) for k, v in prog["ctx"]] + [("zu_page", "U" + tag)]
     return q
 
 
@@ -498,4 +507,77 @@ def _flat_own(ts):
             out += _flat_own(t[2]) + _flat_own(t[3])
         elif t[0] in ("for", "with", "provide"):
             out += _flat_own(t[3])
+    return out
+
+
+# ---------------------------------------------------------------------------------------------------------------
+# exhaustive small family: one fill, every assignment of colliding / non-colliding names to the binders around it
+# ---------------------------------------------------------------------------------------------------------------
+GRID_SITES = ("P", "O", "W_enc", "I_enc", "BTW", "SD", "D_in", "W_in")
+
+
+def grid_program(mode, nested, only, btw_for, names):
+    """names: dict site -> variable name.  The fill content reads {{ x }} (and forloop.counter); binders named x collide.  Sites: P page variable, O data of the owner component (nested only), W_enc / I_enc with / for around the
+    component tag, BTW with (or for) between tag and fill, SD slot-data alias, D_in data of the inner component, W_in with
+    around the slot in the inner template."""
+    T = lambda s: ("text", s)                                   # noqa
+    n = names
+    fill_name = ("var", n["BTW"]) if btw_for else ("str", "s")
+    fill = ("fill", fill_name, n["SD"], None, [T("["), ("out", ("var", "x")), T("|"), ("out", ("counter",)), T("]")])
+    between = ("for", n["BTW"], ("var", "sl"), [fill]) if btw_for else ("with", n["BTW"], ("str", "Wb"), [fill])
+    tag = ("comp", "A", [("a", ("str", "k"))], only, [between])
+    block = [("with", n["W_enc"], ("str", "We"), [("for", n["I_enc"], ("var", "xs"), [tag, T(";")])])]
+    a_tpl = [T("A("), ("with", n["W_in"], ("str", "Wi"), [("slot", "s", False, False, [("k", ("str", "K"))], [T("dflt")])]), T(")")]
+    lib = [("A", {"tpl": a_tpl, "data": [(n["D_in"], ("str", "Dv"))]})]
+    ctx = [(n["P"], "Pv")] + [(k, v) for k, v in (("xs", ["I1", "I2"]), ("sl", ["s"])) if k != n["P"]]
+    if nested:
+        lib.append(("B", {"tpl": [T("B:")] + block + [T(".")],
+                          "data": [("xs", ("kw", "l")), ("sl", ("kw", "m")), (n["O"], ("str", "Ov"))]}))
+        page = [("comp", "B", [("l", ("var", "xs")), ("m", ("var", "sl"))], False, [])]
+    else:
+        page = block
+    return {"mode": mode, "lib": lib, "page": page, "ctx": ctx, "nerr": 0}
+
+
+def grid_programs(thorough):
+    import itertools
+    out = []
+    for nested in (False, True):
+        sites = [s for s in GRID_SITES if nested or s != "O"]
+        for bits in itertools.product("yx", repeat=len(sites)):
+            if not thorough and sum(b == "x" for b in bits) > 3:
+                continue
+            # a binder that does not collide gets a name of its own
+            names = {s: ("x" if b == "x" else "n_" + s.lower()) for s, b in zip(sites, bits)}
+            names.setdefault("O", "n_o")
+            for mode in ("isolated", "django"):
+                for only in (False, True):
+                    for btw_for in (False, True):
+                        tagname = "grid:%s%s%s:%s" % ("nested" if nested else "page", "-only" if only else "", "-for" if btw_for else "",
+                                                       "".join(s[0] + s[-1] for s, b in zip(sites, bits) if b == "x") or "none")
+                        out.append((tagname, mode, grid_program(mode, nested, only, btw_for, names)))
+    return out
+
+
+def loop_programs():
+    """loops inside component templates around a child component: per-iteration state reaches the deferred child and its fills"""
+    T = lambda s: ("text", s)                                   # noqa
+    out = []
+    for mode in ("isolated", "django"):
+        for child_only in (False, True):
+            for reads in ("none", "counter", "x"):
+                for body in ("none", "fill-counter", "fill-x", "with-fill", "implicit"):
+                    read = {"none": [], "counter": [("out", ("counter",))], "x": [("out", ("var", "x"))]}[reads]
+                    b = {"none": [],
+                         "fill-counter": [("fill", ("str", "s"), None, None, [("out", ("counter",))])],
+                         "fill-x": [("fill", ("str", "s"), None, None, [("out", ("var", "x")), ("out", ("counter",))])],
+                         "with-fill": [("with", "w", ("var", "x"), [("fill", ("str", "s"), None, None, [("out", ("var", "w")), ("out", ("counter",))])])],
+                         "implicit": [T("i:"), ("out", ("var", "x")), ("out", ("counter",))]}[body]
+                    ch = ("ch", {"tpl": [T("ch["), ("out", ("var", "d"))] + read + [T("("), ("slot", "s", True, False, [], [T("dflt")]), T(")]")],
+                                 "data": [("d", ("kw", "a"))]})
+                    pa = ("pa", {"tpl": [T("pa:"), ("for", "x", ("var", "xs"), [("comp", "ch", [("a", ("var", "x"))], child_only, b), ("out", ("counter",))]), T(";")],
+                                 "data": [("xs", ("kw", "l"))]})
+                    prog = {"mode": mode, "lib": [pa, ch], "page": [("comp", "pa", [("l", ("var", "xs"))], False, [])],
+                            "ctx": [("p", "Pv"), ("xs", ["I1", "I2", "I3"])], "nerr": 0}
+                    out.append(("loops:%s%s/%s" % (reads, "-only" if child_only else "", body), mode, prog))
     return out
